@@ -95,3 +95,8 @@ pub fn stateful_modules() -> Vec<(&'static str, Vec<u8>)> {
     ];
     srcs.into_iter().map(|(n, s)| (n, wat::parse_str(s).unwrap_or_else(|e| panic!("stateful module {}: {}", n, e)))).collect()
 }
+
+/// assemble WAT text (wat 1.259)
+pub fn assemble(src: &str) -> Result<Vec<u8>, String> {
+    wat::parse_str(src).map_err(|e| e.to_string())
+}
